@@ -1840,6 +1840,10 @@ func (b *Block) setExportedVars() (err error) {
 		return fmt.Errorf("number of labels (%d) exceeds what can be contained in max block size %d", numLabels, MaxBlockSize)
 	}
 
+	numBytes := uint64(len(b.data))
+	if 16+uint64(numLabels)*8 > numBytes {
+		return fmt.Errorf("block of %d bytes is too short for its %d labels", numBytes, numLabels)
+	}
 	b.Labels, err = dvid.AliasByteToUint64(b.data[16 : 16+numLabels*8])
 	if err != nil {
 		return
@@ -1852,9 +1856,15 @@ func (b *Block) setExportedVars() (err error) {
 		return
 	}
 
+	if numSubBlocks == 0 {
+		return fmt.Errorf("block with %d labels has no sub-blocks (%d x %d x %d)", numLabels, gx, gy, gz)
+	}
 	pos := uint32(16)
 	pos += numLabels * 8
 	nbytes := numSubBlocks * 2
+	if uint64(pos)+uint64(nbytes) > numBytes {
+		return fmt.Errorf("block of %d bytes is too short for the label counts of its %d sub-blocks", numBytes, numSubBlocks)
+	}
 	b.NumSBLabels, err = dvid.AliasByteToUint16(b.data[pos : pos+nbytes])
 	if err != nil {
 		return
@@ -1866,14 +1876,72 @@ func (b *Block) setExportedVars() (err error) {
 
 	pos += nbytes
 	subBlockIndexBytes := numSubBlockIndices * 4
-	b.SBIndices, err = dvid.AliasByteToUint32(b.data[pos : pos+subBlockIndexBytes])
-	if err != nil {
+	if uint64(pos)+uint64(subBlockIndexBytes) > numBytes {
+		return fmt.Errorf("block of %d bytes is too short for its %d sub-block label indices", numBytes, numSubBlockIndices)
+	}
+	if subBlockIndexBytes == 0 {
+		b.SBIndices = nil
+	} else if b.SBIndices, err = dvid.AliasByteToUint32(b.data[pos : pos+subBlockIndexBytes]); err != nil {
 		return
 	}
 
 	pos += subBlockIndexBytes
 	b.SBValues = b.data[pos:]
 	return
+}
+
+// Validate returns an error unless the block's tables are mutually consistent, so that every view
+// of the block (label volume, point lookups, counts, RLE and binary writers) stays within them.
+// Blocks built by this package always are; blocks received from a client may not be.
+func (b *Block) Validate() error {
+	gx, gy, gz := b.Size[0]/SubBlockSize, b.Size[1]/SubBlockSize, b.Size[2]/SubBlockSize
+	if gx <= 0 || gy <= 0 || gz <= 0 {
+		return fmt.Errorf("block has illegal size %s", b.Size)
+	}
+	if len(b.Labels) == 0 {
+		return fmt.Errorf("block has 0 labels, which is not allowed")
+	}
+	if len(b.Labels) == 1 {
+		return nil
+	}
+	numSubBlocks := int(gx) * int(gy) * int(gz)
+	if len(b.NumSBLabels) != numSubBlocks {
+		return fmt.Errorf("block has label counts for %d sub-blocks, expected %d", len(b.NumSBLabels), numSubBlocks)
+	}
+	numLabels := uint32(len(b.Labels))
+	numValueBits := uint64(len(b.SBValues)) * 8
+	var indexPos int
+	var bitpos uint64
+	for sb, n := range b.NumSBLabels {
+		if n > SubBlockSize*SubBlockSize*SubBlockSize {
+			return fmt.Errorf("sub-block %d claims %d labels", sb, n)
+		}
+		if indexPos+int(n) > len(b.SBIndices) {
+			return fmt.Errorf("sub-block %d label indices run past the %d indices of the block", sb, len(b.SBIndices))
+		}
+		for i := 0; i < int(n); i++ {
+			if b.SBIndices[indexPos+i] >= numLabels {
+				return fmt.Errorf("sub-block %d refers to label index %d but block has %d labels", sb, b.SBIndices[indexPos+i], numLabels)
+			}
+		}
+		indexPos += int(n)
+		if n > 1 {
+			bits := uint64(bitsFor(n))
+			if bitpos+bits*SubBlockSize*SubBlockSize*SubBlockSize > numValueBits {
+				return fmt.Errorf("sub-block %d voxel values run past the %d value bytes of the block", sb, len(b.SBValues))
+			}
+			for v := 0; v < SubBlockSize*SubBlockSize*SubBlockSize; v++ {
+				if getPackedValue(b.SBValues, uint32(bitpos), uint32(bits)) >= n {
+					return fmt.Errorf("sub-block %d has a voxel value outside its %d labels", sb, n)
+				}
+				bitpos += bits
+			}
+			if bitpos%8 != 0 {
+				bitpos += 8 - (bitpos % 8)
+			}
+		}
+	}
+	return nil
 }
 
 // immutable representation of (y,z) coordinate, suitable for maps.
